@@ -12,3 +12,24 @@ open SaoVerif
 #print axioms C03_statement_refuted
 #print axioms C20_share_check_sound
 #print axioms C20_refuted
+#print axioms C07_add_price
+#print axioms C07_remove_price
+#print axioms C07_price_symmetric
+#print axioms C07_remove_guard
+#print axioms C07_remove_keeps_bounds
+#print axioms C07_repay_conserves
+#print axioms C08_mint_bound
+#print axioms C08_settle_exact
+#print axioms C08_remove_settles_first
+#print axioms C08_claim_pays_floor
+#print axioms C09_store_unauthorised
+#print axioms C09_terminate_unauthorised
+#print axioms C09_perm_unauthorised
+#print axioms C09_unauthorised_unchanged
+#print axioms C10_complete_requires_actor
+#print axioms C10_migrate_requires_actor
+#print axioms C10_terminate_requires_actor
+#print axioms C10_perm_requires_actor
+#print axioms C10_cancel_requires_creator
+#print axioms C10_ready_requires_gateway
+#print axioms C10_third_party_cannot_cancel
